@@ -15,7 +15,7 @@ from common import REPO, WORK
 SUFFIX = os.environ.get("VERIF_KANI_TARGET_SUFFIX", "")
 MIR_DIR = os.path.join(WORK, "mir" + SUFFIX)
 POOL_PROPS = {"C01", "C02", "C09", "C10", "C13", "C20"}
-MIR_PROPS = POOL_PROPS | {"C06", "C15", "C08", "C03", "C04", "C14", "C05", "C11", "C19"}
+MIR_PROPS = POOL_PROPS | {"C06", "C15", "C08", "C03", "C04", "C14", "C05", "C11", "C19", "C17"}
 
 
 def source_hash():
@@ -144,6 +144,7 @@ INCLUDE = {
 
 
 def run_property(pid, tier, seed, logdir):
+    os.environ.setdefault("VERIF_MIR_EXPLORE_S", "240" if tier == "quick" else "1800")
     obligations = _run_property(pid, tier, seed, logdir)
     for src, prefix, only in INCLUDE.get(pid, []):
         for o in _run_property(src, tier, seed, logdir):
@@ -225,6 +226,34 @@ def _run_property(pid, tier, seed, logdir):
         except (Unsupported, Unwind) as e:
             obligations.append(dict(name="c06_cache_wrapper_key_and_gate", engine="mirsym", functions=[], bounds="", oracle="", stubs=[], tier=tier,
                                     verdict="inconclusive", reason=f"outside the encoder's subset: {e}", queries=0, solver_time_s=0, failed=[]))
+        return obligations
+    if pid == "C17":
+        from mirsym import props_radv, enums as _en
+        structs = _en.scan_structs(REPO)
+        jobs = []
+        for sh in props_radv.shapes(tier):
+            def job(sh=sh):
+                t0 = time.time()
+                name = "c17_ra_" + sh.name
+                bounds = ("RaAdvService::build_announcement_pure + icmppkt::serialise_router_advertisement from MIR for the interface shape '%s' (link-layer address %s, MTU %s, %d prefixes, "
+                          "interface dns-servers %s, top-level dns-servers %s, interface dns-search %s, top-level dns-search %s, NAT64 prefix length %s, captive portal %s / top level %s, lifetime %s): "
+                          "hop limit, flags, every lifetime/timer over 0..2^64-1 s, prefix bits, prefix lengths 0..=128, L/A flags, addresses, MTU, link-layer address symbolic; domain and URL text concrete"
+                          % (sh.name, sh.ll, sh.mtu, sh.prefixes, sh.rdnss, sh.rdnss_top, sh.dnssl, sh.dnssl_top, sh.pref64, sh.portal, sh.portal_top, sh.lifetime))
+                oracle = "decoder written from RFC 4861 4.2/4.6, RFC 8106 5, RFC 8781 4, RFC 8910 2.3 applied to the produced octets == the configured values (clamped where a field cannot hold them); lengths multiples of 8; reserved fields and prefix bits beyond the length zero; exactly the configured options"
+                try:
+                    failed, ex, npaths, kinds = props_radv.obligation(prog, en, structs, sh)
+                    for f in failed:
+                        f["check"] = name
+                    return dict(name=name, engine="mirsym", functions=sorted(f.split("::")[-1] for f in ex.encoded_fns), bounds=bounds, oracle=oracle,
+                                stubs=["Ipv6Addr = 128-bit value (octets / from / eq summarised)", "T::try_from(x).unwrap_or(d) = if x fits then x else d (one value, no fork)",
+                                       "domain and URL strings concrete (str::split, len, as_bytes on concrete text)"] + sorted(ex.used_summaries),
+                                tier=tier, **_vr(failed, ex), queries=ex.queries, solver_time_s=round(ex.solver_time, 2), failed=_dedup(failed), paths=npaths,
+                                path_kinds={str(k): v for k, v in kinds.items()}, wall_s=round(time.time() - t0, 1))
+                except (Unsupported, Unwind) as e:
+                    return dict(name=name, engine="mirsym", functions=[], bounds=bounds, oracle=oracle, stubs=[], tier=tier, verdict="inconclusive",
+                                reason=f"outside the encoder's subset: {e}", queries=0, solver_time_s=0, failed=[])
+            jobs.append(("c17_ra_" + sh.name, job))
+        obligations.extend(run_jobs(jobs))
         return obligations
     if pid == "C19":
         from mirsym import props_config, enums as _en
